@@ -102,3 +102,44 @@ Proof.
       try (unfold good_obj, good_field, good_range, wf_cidr; cbn; repeat split; try lia; try discriminate; intros [? _]; discriminate).
   - repeat constructor; cbn; discriminate.
 Qed.
+
+(* ---------- why the hypothesis "no node is deleted" cannot be dropped: the unconditional statement is false of the model (and of
+   the code: the three witnesses are the recorded residues K-D21, K-TOMB, K-REPL, replayed on the implementation by the corpus) *)
+Definition po_w : parse_oracle := fun _ => Some [].
+Definition lab_w : label_oracle := fun k => [cl k].
+Definition cc_w := UCreateCC (mkCCObj [99] (FOk (mkCidr V4 167772160 27)) FEmpty 4 (Some [107]) [] false 1 0 0).
+
+Definition unjustified_after (ops : list op) : Prop :=
+  Forall wf_op ops /\
+  let w := run po_w lab_w init_world ops in
+  exists b, In b (used_blocks w) /\ wf_cidr b /\ ~ Jw w b.
+
+Ltac refute_c04 :=
+  split; [repeat constructor; cbn; try (intros ? E; discriminate E);
+          try (unfold good_obj, good_field, good_range, wf_pcidr, wf_cidr; cbn; repeat split; try lia; try discriminate; intros [? _]; discriminate)|];
+  match goal with |- let w := run ?po ?lab init_world ?ops in _ =>
+    intros w; exists (mkCidr V4 167772160 28);
+    assert (Hw : WInv w) by (apply run_winv; [apply winv_init|repeat constructor; cbn; try (intros ? E; discriminate E);
+       try (unfold good_obj, good_field, good_range, wf_pcidr, wf_cidr; cbn; repeat split; try lia; try discriminate; intros [? _]; discriminate)]);
+    assert (Hb : wf_cidr (mkCidr V4 167772160 28)) by (unfold wf_cidr; cbn; repeat split; try lia; reflexivity);
+    split; [vm_compute; left; reflexivity|split; [exact Hb|]];
+    intros HJ; pose proof (justb_complete w _ Hw Hb HJ) as Hjb; vm_compute in Hjb; discriminate Hjb
+  end.
+
+(* K-D21: a listed node is deleted between the start-up listing and the start of the informers *)
+Theorem C04_with_node_deletion_refuted_K_D21 :
+  unjustified_after [cc_w; UCreateNode [110;49] [] [PGood (mkCidr V4 167772160 28) true]; Construct None None [UOk] [];
+                     UDeleteNode [110;49]; StartInformers; ProcCC UOk].
+Proof. refute_c04. Qed.
+
+(* K-TOMB: the deletion is seen only through a relist whose last known state predates the controller's own write *)
+Theorem C04_with_node_deletion_refuted_K_TOMB :
+  unjustified_after [cc_w; Construct None None [UOk] []; StartInformers; ProcCC UOk; UCreateNode [110;49] [] []; DeliverNode;
+                     ProcNode [POk]; UDeleteNode [110;49]; RelistNodes].
+Proof. refute_c04. Qed.
+
+(* K-REPL: the node is deleted and created again under the same name while the watch is broken *)
+Theorem C04_with_node_deletion_refuted_K_REPL :
+  unjustified_after [cc_w; Construct None None [UOk] []; StartInformers; ProcCC UOk; UCreateNode [110;49] [] []; DeliverNode;
+                     ProcNode [POk]; DeliverNode; UDeleteNode [110;49]; UCreateNode [110;49] [] []; RelistNodes].
+Proof. refute_c04. Qed.
